@@ -24,6 +24,8 @@ type cryptoCase struct {
 	Dir     uint8  `json:"direction"`
 	Bits    int    `json:"bits"`
 	Payload string `json:"payload_hex"`
+	Extra   int    `json:"extra_octets_in_buffer,omitempty"` // per-algorithm functions: the buffer is longer than the stated bit length needs
+	Dirty   bool   `json:"unused_bits_of_last_octet_set,omitempty"`
 }
 
 var pubKey1 = [16]byte{0x2b, 0xd6, 0x45, 0x9f, 0x82, 0xc5, 0xb3, 0x00, 0x95, 0x2c, 0x49, 0x10, 0x48, 0x81, 0xff, 0x48}
@@ -113,10 +115,10 @@ func c06Exec(c *core.Ctx, in cryptoCase) {
 	key := hexKey(in.Key)
 	payload, _ := hex.DecodeString(in.Payload)
 	nbytes := (in.Bits + 7) / 8
-	if len(payload) != nbytes {
+	if len(payload) != nbytes+in.Extra || (in.Extra > 0 && (in.Via != "direct" || in.Alg == 2)) {
 		return
 	}
-	want := refEnc(in.Alg, key, in.Count, in.Bearer, in.Dir, payload, in.Bits)
+	want := refEnc(in.Alg, key, in.Count, in.Bearer, in.Dir, payload[:nbytes], in.Bits)
 	var got []byte
 	var err error
 	// the payload is a window into a larger buffer (spare capacity behind it, canaries around it), as a caller that
@@ -139,6 +141,9 @@ func c06Exec(c *core.Ctx, in cryptoCase) {
 		}
 	})
 	name := fmt.Sprintf("NEA%d|%s", in.Alg, in.Via)
+	if in.Extra > 0 {
+		name += "|buffer-longer-than-bit-length"
+	}
 	if pi != nil {
 		c.Fail(name+"|"+pi.Key(), "panics: "+pi.Msg)
 		return
@@ -146,6 +151,9 @@ func c06Exec(c *core.Ctx, in cryptoCase) {
 	if err != nil {
 		c.Fail(name+"|error", "returns an error for valid parameters: "+err.Error())
 		return
+	}
+	if in.Extra > 0 && len(got) >= nbytes {
+		got = got[:nbytes] // what lies beyond the stated bit length is not defined
 	}
 	if len(got) != nbytes {
 		c.Fail(name+"|length", fmt.Sprintf("output has %d octets for a %d-octet input", len(got), nbytes))
@@ -171,10 +179,10 @@ func c06Exec(c *core.Ctx, in cryptoCase) {
 func c07Exec(c *core.Ctx, in cryptoCase) {
 	key := hexKey(in.Key)
 	msg, _ := hex.DecodeString(in.Payload)
-	if len(msg) != (in.Bits+7)/8 || in.Bits == 0 && in.Alg != 2 {
+	if len(msg) != (in.Bits+7)/8+in.Extra || in.Bits == 0 && in.Alg != 2 || (in.Extra > 0 && (in.Via != "direct" || in.Alg == 2)) {
 		return
 	}
-	want := refMac(in.Alg, key, in.Count, in.Bearer, in.Dir, msg, in.Bits)
+	want := refMac(in.Alg, key, in.Count, in.Bearer, in.Dir, maskBits(msg, in.Bits), in.Bits)
 	var got []byte
 	var err error
 	guardReset()
@@ -194,6 +202,9 @@ func c07Exec(c *core.Ctx, in cryptoCase) {
 		}
 	})
 	name := fmt.Sprintf("NIA%d|%s", in.Alg, in.Via)
+	if in.Extra > 0 || in.Dirty {
+		name += "|bits-beyond-the-stated-length-set"
+	}
 	if pi != nil {
 		c.Fail(name+"|"+pi.Key(), "panics: "+pi.Msg)
 		return
@@ -438,6 +449,15 @@ func (e *cryptoEnum) run() {
 				}
 			}
 		}
+		if !thorough {
+			for _, b := range []int{4096, 8192, 16384, 32768, 65535} {
+				for d := -6; d <= 20; d++ {
+					if b+d <= 65535 {
+						lens = append(lens, b+d)
+					}
+				}
+			}
+		}
 		for li, l := range lens {
 			if li%64 == 0 && !e.mine() {
 				// sharding by blocks of 64 lengths
@@ -453,6 +473,49 @@ func (e *cryptoEnum) run() {
 			}
 			if li%64 == 63 {
 				e.c.Tick()
+			}
+		}
+	}
+	// buffers longer than the stated bit length (per-algorithm functions of algorithms 1 and 3 take the length in bits):
+	// every bit length 0..160 with 1, 3, 4, 5 and 12 further octets behind the last one that carries message bits
+	for alg := 1; alg <= 3; alg += 2 {
+		if !e.mine() {
+			continue
+		}
+		if !e.c.Begin("extra-buffer", fmt.Sprintf("alg%d", alg), map[string]int{"alg": alg}) {
+			continue
+		}
+		for bits := 0; bits <= 160; bits++ {
+			if e.mac && bits == 0 {
+				continue
+			}
+			for _, extra := range []int{1, 3, 4, 5, 12} {
+				nb := (bits + 7) / 8
+				payload := patPayload(2, nb+extra)
+				if e.mac && bits%8 != 0 {
+					payload[nb-1] &= 0xFF << uint(8-bits%8)
+				}
+				cs := cryptoCase{Alg: alg, Via: "direct", Key: hex.EncodeToString(pubKey1[:]), Count: 0x01020304, Bearer: 7, Dir: 1, Bits: bits, Payload: hex.EncodeToString(payload), Extra: extra}
+				e.n++
+				sub := core.NewCtx(e.c.Prop, e.c.Tier, e.c.Seed, 0, 1)
+				sub.Begin("case", "", cs)
+				e.exec(sub, cs)
+				for k, v := range sub.Viols {
+					e.c.FailCase(strings.SplitN(k, "|", 2)[1], v.What+fmt.Sprintf(" (the buffer holds %d more octets than the %d bits need)", extra, bits), "case", cs)
+				}
+				if e.mac && bits%8 != 0 && extra == 1 {
+					// the unused low bits of the last octet set (they are not part of the message)
+					d := patPayload(2, nb)
+					d[nb-1] |= 0xFF >> uint(bits%8)
+					cd := cryptoCase{Alg: alg, Via: "direct", Key: cs.Key, Count: cs.Count, Bearer: 7, Dir: 1, Bits: bits, Payload: hex.EncodeToString(d), Dirty: true}
+					e.n++
+					sub2 := core.NewCtx(e.c.Prop, e.c.Tier, e.c.Seed, 0, 1)
+					sub2.Begin("case", "", cd)
+					e.exec(sub2, cd)
+					for k, v := range sub2.Viols {
+						e.c.FailCase(strings.SplitN(k, "|", 2)[1], v.What+" (unused bits of the last octet set)", "case", cd)
+					}
+				}
 			}
 		}
 	}
@@ -492,7 +555,7 @@ func cryptoRule(what string) func(string) string {
 		if tier == "thorough" {
 			d = "single key deviations at every length 0..320; the complete count x bearer x direction grid at the edge lengths; all pairs (key, count) of deviations x direction x bearer in {0,1,16,31}; long inputs up to 65 528 bits hitting every residue mod 32"
 		}
-		return what + " Deviation-bounded enumeration over (key, COUNT, bearer, direction, length, pattern) from published defaults: key alphabet = 2 published keys, zero, ones, the 128 single-bit keys, the 16 single-octet keys; COUNT alphabet = 0, 1, FFFFFFFF, 00FFFFFF, 7FFFFFFF, A5A5A5A5 and the 32 single-bit counts; all 32 bearers x 2 directions; every bit length 0..320 with 4 content patterns; " + d + "; through both the wrapper and the per-algorithm functions; payloads and messages are handed over as windows into a larger buffer (spare capacity and non-zero canary octets around them; the surroundings must be unchanged, and octets beyond the stated length must not influence the result); every octet length 0..2100 (thorough 0..8300 and ±9 around 16 384, 32 768, 65 535) per algorithm and entry point; plus call histories (one parameter tuple reused with ascending, descending and repeated lengths). Mixed-call histories: all ordered pairs and a-b-a triples (thorough: all triples) over an alphabet of 66 calls — ciphering and integrity x algorithm 1..3 x wrapper/direct x 0, 1, 16, 33 octets with non-zero COUNT, bearer and direction, plus the refused calls (NULL and unknown algorithm, bearer 32, direction 2, nil payload) — every valid call of the property's kind compared with the standard function, so that a scratch block, IV or keystream kept between calls of different algorithms shows. A case is distinct by its parameter tuple; component checks (hooks) compare every table entry and component function exhaustively."
+		return what + " Deviation-bounded enumeration over (key, COUNT, bearer, direction, length, pattern) from published defaults: key alphabet = 2 published keys, zero, ones, the 128 single-bit keys, the 16 single-octet keys; COUNT alphabet = 0, 1, FFFFFFFF, 00FFFFFF, 7FFFFFFF, A5A5A5A5 and the 32 single-bit counts; all 32 bearers x 2 directions; every bit length 0..320 with 4 content patterns; " + d + "; through both the wrapper and the per-algorithm functions; payloads and messages are handed over as windows into a larger buffer (spare capacity and non-zero canary octets around them; the surroundings must be unchanged, and octets beyond the stated length must not influence the result); every octet length 0..2100 and -6..+20 around 4096, 8192, 16 384, 32 768, 65 535 (thorough 0..8300 and ±9 around the powers of two) per algorithm and entry point; per-algorithm functions of algorithms 1 and 3 with buffers 1, 3, 4, 5, 12 octets longer than the stated bit length for every bit length 0..160; plus call histories (one parameter tuple reused with ascending, descending and repeated lengths). Mixed-call histories: all ordered pairs and a-b-a triples (thorough: all triples) over an alphabet of 66 calls — ciphering and integrity x algorithm 1..3 x wrapper/direct x 0, 1, 16, 33 octets with non-zero COUNT, bearer and direction, plus the refused calls (NULL and unknown algorithm, bearer 32, direction 2, nil payload) — every valid call of the property's kind compared with the standard function, so that a scratch block, IV or keystream kept between calls of different algorithms shows. A case is distinct by its parameter tuple; component checks (hooks) compare every table entry and component function exhaustively."
 	}
 }
 
@@ -527,7 +590,7 @@ func init() {
 		Rule:   cryptoRule("NIA1/2/3 and NASMacCalculate against an independent 128-EIA1/2/3 reference (UIA2 with FRESH = bearer<<27, AES-CMAC re-implemented from RFC 4493, EIA3), message lengths 1..320 bits (NIA2: octets), single-bit messages at every position < 256."),
 		Assumptions: []string{
 			"key/COUNT values are covered by structured alphabets, not completely (see C06)",
-			"unused bits of the last message octet are zero; L = 0 is outside the standards' definition for EIA1/EIA3 (C08 asserts only 'no panic' there)",
+			"L = 0 is outside the standards' definition for EIA1/EIA3 (C08 asserts only 'no panic' there); the bulk of the cases keeps the unused bits of the last message octet zero, a dedicated family sets them and lengthens the buffer (the MAC must depend on the first LENGTH bits only)",
 		},
 		Finish: finishDistinct("distinct by the complete parameter tuple (algorithm, entry point, key, COUNT, bearer, direction, bit length, payload); non-trivial = at least one payload bit"),
 	})
